@@ -288,6 +288,8 @@ def inst_ptrace(n, S_list, sysform, dimform):
             N = _prod(d)
             sys_arg = int(S_list[0]) if sysform == "int" else list(S_list)
             dim = list(d) if dimform == "list" else np.array(list(d), dtype=object)
+            if sysform == "omitted":  # `sys` not passed, `dim` by keyword: the second subsystem is traced out
+                return [X_of((N, N))], {"dim": dim}, [sp.Ge(N, 2)] + [sp.Ge(x, 1) for x in d]
             return [X_of((N, N)), sys_arg, dim], {}, [sp.Ge(N, 2)] + [sp.Ge(x, 1) for x in d]
 
         K = [i for i in range(n) if i not in S_list]
@@ -301,7 +303,7 @@ def inst_ptrace(n, S_list, sysform, dimform):
         cands = [dims_from_model(m, "d", n) for m in models]
         cands = [c for c in cands if c and 2 <= int(np.prod(c)) <= 1024] + batteries(n)
         for b in cands:
-            rc.append(dict(clause="ptrace.index", function="partial_trace", input_class="partial_trace/%s" % sysform, params=dict(sys=list(S_list), sysform=sysform, dims=b, dimform=dimform)))
+            rc.append(dict(clause="ptrace.index", function="partial_trace", input_class="partial_trace/%s" % sysform, params=dict(sys=list(S_list), sysform="list" if sysform == "omitted" else sysform, dims=b, dimform=dimform, **({"sys_omitted": True} if sysform == "omitted" else {}))))
         return recs, ms, rc
 
     return label, run
@@ -457,6 +459,7 @@ def instances_C02(tier):
                 out.append(inst_ptrace(n, S, "int", "list"))
             if n <= 3:
                 out.append(inst_ptrace(n, S, "list", "array"))
+        out.append(inst_ptrace(n, (1,), "omitted", "list"))  # `sys` omitted with `dim` given: the second subsystem
     out += float_form_instances("C02")
     return out
 
